@@ -2,7 +2,7 @@
     Property theorems (statements only; proofs are in CfgState/ReplayProofs.v). *)
 From stdpp Require Import gmap strings.
 From Coq Require Import NArith.
-From SV Require Import CfgState.Model CfgState.Spec CfgState.Gen CfgState.GenSteps CfgState.ReplayProofs
+From SV Require Import CfgState.Proofs CfgState.Model CfgState.Spec CfgState.Gen CfgState.GenSteps CfgState.ReplayProofs
   CfgState.ReplayBuckets CfgState.InvRProofs C05.Framing.
 Open Scope N_scope.
 
@@ -115,6 +115,45 @@ Proof.
   - intros Hnd. destruct (le_lt_dec n M) as [H|H]; [exact H|]. exfalso. exact (counters_dup M n HM H Hnd).
   - apply counters_nodup.
 Qed.
+
+(** the key of a stored frontend is the key of its VALUE: in every reachable
+    state an http(s) frontend is filed under [front_key] of what is stored — for
+    ARBITRARY method / hostname / path (the fields are unconstrained numbers:
+    any string, any case) — so the request rebuilt from the stored value
+    ([generate_requests] emits [RAddFront tls f] for the stored [f]) lands, when
+    accepted by ANY instance, under the key it came from, holding the same
+    value.  An implementation that stores a value other than the request's
+    (e.g. a case-folded method under the request's own spelling as key) breaks
+    exactly this: the replayed request computes another key. *)
+Theorem stored_value_replays_to_same_key :
+  forall fingerprint inames hc_valid steps s tls k f,
+    reachable fingerprint inames hc_valid steps s ->
+    get_f tls s !! k = Some f ->
+    k = front_key f
+    /\ In (RAddFront tls f) (generate_requests s)
+    /\ forall t t', dispatch fingerprint inames hc_valid steps t (RAddFront tls f) = (t', Ok) ->
+                    get_f tls t' !! k = Some f.
+Proof.
+  intros fp nm hc st s tls k f Hr Hk.
+  pose proof (reachable_InvR fp nm hc st s Hr) as [[_ Hf] _].
+  destruct (Hf tls k f Hk) as [-> _]. split; [reflexivity|]. split.
+  - unfold generate_requests. rewrite !in_app_iff.
+    destruct tls.
+    + do 7 right. left. apply in_map_iff. exists (front_key f, f). split; [reflexivity|].
+      apply elem_of_list_In, elem_of_map_to_list. exact Hk.
+    + do 5 right. left. apply in_map_iff. exists (front_key f, f). split; [reflexivity|].
+      apply elem_of_list_In, elem_of_map_to_list. exact Hk.
+  - intros t t' Hd. exact (proj1 (ok_add_front fp nm hc st t tls f t' Hd)).
+Qed.
+
+(** non-vacuity of the above: a lower-case and an upper-case spelling of a
+    method (two different numbers) give two frontends under two keys, each
+    replayed to its own key *)
+Example stored_value_two_spellings :
+  let f1 := Front 0 0 0 0 (Some 1) None 0 0 in
+  let f3 := Front 0 0 0 0 (Some 3) None 0 0 in
+  front_key f1 <> front_key f3.
+Proof. cbv. congruence. Qed.
 
 (** non-vacuity: a state with an active listener, a cluster with a health check
     and a frontend satisfies the hypotheses and is rebuilt *)
